@@ -414,12 +414,72 @@ func runCSOrder(c *core.Ctx) {
 				checkJoin(c, g, info, fmt.Sprintf("commit:Commit#%d-joined", i+1), cm, nil)
 			}
 			// error accumulation: every assignment to err from a variable X is guarded by X != nil
+			// the accumulator may reach the returned variable through plain copies (`err = ret`, each assigned once, outside
+			// any loop - what an extracted pre-commit phase looks like once it is read in place): the copies are followed
+			accs := map[types.Object]bool{errVar: true}
+			copies := map[ast.Node]bool{}
+			{
+				errT := types.Universe.Lookup("error").Type()
+				nAssign := map[types.Object]int{}
+				inLoop := map[ast.Node]bool{}
+				var walk func(n ast.Node, loop bool)
+				walk = func(n ast.Node, loop bool) {
+					ast.Inspect(n, func(m ast.Node) bool {
+						switch x := m.(type) {
+						case *ast.FuncLit:
+							return false
+						case *ast.ForStmt:
+							if m != n {
+								walk(x.Body, true)
+								return false
+							}
+						case *ast.RangeStmt:
+							if m != n {
+								walk(x.Body, true)
+								return false
+							}
+						case *ast.AssignStmt:
+							if loop {
+								inLoop[x] = true
+							}
+							if x.Tok == token.ASSIGN {
+								for _, l := range x.Lhs {
+									if o := an.ObjOf(info, l); o != nil {
+										nAssign[o]++
+									}
+								}
+							}
+						}
+						return true
+					})
+				}
+				walk(fn.Body(), false)
+				for changed := true; changed; {
+					changed = false
+					ast.Inspect(fn.Body(), func(m ast.Node) bool {
+						as, ok := m.(*ast.AssignStmt)
+						if !ok || as.Tok != token.ASSIGN || len(as.Lhs) != 1 || len(as.Rhs) != 1 || copies[as] || inLoop[as] {
+							return true
+						}
+						dst, src := an.ObjOf(info, as.Lhs[0]), an.ObjOf(info, as.Rhs[0])
+						if dst == nil || src == nil || !accs[dst] || nAssign[dst] != 1 {
+							return true
+						}
+						if v, isVar := src.(*types.Var); isVar && !v.IsField() && types.Identical(v.Type(), errT) && v.Parent() != fn.Pkg.Types.Scope() {
+							copies[as] = true
+							accs[src] = true
+							changed = true
+						}
+						return true
+					})
+				}
+			}
 			assigns := g.FindAtoms(func(a ast.Node) bool {
 				as, ok := a.(*ast.AssignStmt)
-				if !ok || len(as.Lhs) != 1 || len(as.Rhs) != 1 {
+				if !ok || len(as.Lhs) != 1 || len(as.Rhs) != 1 || copies[a] {
 					return false
 				}
-				return an.ObjOf(info, as.Lhs[0]) == errVar && !isNilIdent(info, as.Rhs[0])
+				return accs[an.ObjOf(info, as.Lhs[0])] && an.ObjOf(info, as.Lhs[0]) != nil && !isNilIdent(info, as.Rhs[0])
 			})
 			for i, a := range assigns {
 				as := a.(*ast.AssignStmt)
